@@ -264,6 +264,10 @@ def numeric_poly(c, i):
 def cont_draw(c, i=None):
     """continuous draw, possibly with location/scale depending on lower variables"""
     fam = c.pick(["Normal", "Uniform", "Laplace", "DistExp", "Gamma", "Beta"])
+    last = getattr(c, "last_family", None)
+    if last is not None and c.b(0.4):
+        fam = last  # several draws from one family with different parameters in one program
+    c.last_family = fam
     loc = None
     if i is not None and c.b(0.6):
         pool = list(c.fin) + c.num[:i] + ([c.num[i]] if c.b(0.5) else [])
